@@ -469,6 +469,12 @@ class Worker:
             # Perform a step of the task and get the future it awaits on
             future = task.step(self._get_desired_result(task))
 
+            if task.return_address not in self._tasks:
+                # The task was cancelled by the incoming thread while this
+                # step was running; release what the step created.
+                self._release_cancelled_task(task)
+                return
+
             self._process_await(task, future)
 
         except StopIteration as e:
@@ -528,6 +534,7 @@ class Worker:
         if task.return_address not in self._tasks:
             # print(f'Task was cancelled: {task.return_address},
             # {task.fnargs[0].__name__}')
+            self._release_cancelled_task(task)
             return
 
         if task.return_address.worker_id == self._id:
@@ -551,6 +558,13 @@ class Worker:
 
             # Otherwise send a cancel message
             self.cancel(RuntimeFuture(mailbox_id))
+
+    def _release_cancelled_task(self, task: RuntimeTask) -> None:
+        """Drop the mailboxes a cancelled task created after its cancel."""
+        for mailbox_id in task.owned_mailboxes:
+            self._mailboxes.pop(mailbox_id, None)
+        task.owned_mailboxes.clear()
+        task.cancel()
 
     def _get_desired_result(self, task: RuntimeTask) -> Any:
         """Retrieve the task's desired result from the mailboxes."""
